@@ -225,7 +225,7 @@ func (in *inst) perform(c gengo.Context, gen string, a Action, typ string) error
 		pkgName = p.Pkg().Name()
 	}
 	for i, imp := range a.Imports {
-		c.RenderT("var _"+fmt.Sprint(i)+"_"+typ+"_"+gen+" @x\n", snippet.Arg("x", snippet.PkgExpose(imp, "X")))
+		c.RenderT("var _"+fmt.Sprint(i)+"_"+typ+"_"+gen+" @x\n", snippet.Arg("x", snippet.PkgExpose(subst(imp, strings.ToLower(typ), gen, pkgName), "X")))
 	}
 	if a.Render != "" {
 		c.Render(snippet.Block(subst(a.Render, typ, gen, pkgName)))
